@@ -70,6 +70,10 @@ pub enum Family {
     /// and a diamond chain of `depth` levels with `fan` calls per level on top. Propagating
     /// "which globals does this function reach" must not cost depth x call sites x globals^2.
     GlobalsGraph { depth: u32, fan: u32, globals: u32, helpers: u32 },
+    /// Other dimensions along which a shader can be "large": 0 array nesting depth, 1 identifier
+    /// length, 2 number of vertex attributes, 3 number of constants and overrides, 4 kilobytes of
+    /// comments, 5 block nesting depth inside one function, 6 switch cases / loops with calls.
+    Shapes { shape: u8, n: u32 },
     /// Small programs with huge NUMBERS in them: binding and group indices near u32::MAX, array
     /// lengths in the hundreds of millions, large workgroup sizes and override ids. Cost must
     /// follow the size of the text, not the magnitude of its literals.
@@ -85,6 +89,13 @@ impl Family {
             Family::Diamond { ptr_args: true, .. } => "diamond_ptr_args",
             Family::KernelLib { .. } => "kernel_library",
             Family::Magnitude { .. } => "huge_literals",
+            Family::Shapes { shape: 0, .. } => "array_nesting",
+            Family::Shapes { shape: 1, .. } => "long_identifiers",
+            Family::Shapes { shape: 2, .. } => "many_vertex_attributes",
+            Family::Shapes { shape: 3, .. } => "many_consts_and_overrides",
+            Family::Shapes { shape: 4, .. } => "big_comments",
+            Family::Shapes { shape: 5, .. } => "block_nesting",
+            Family::Shapes { .. } => "switch_cases_and_loops",
             Family::GlobalsGraph { .. } => "globals_x_call_graph",
             Family::Chain { pure_helpers: true, .. } => "chain_pure",
             Family::Diamond { pure_helpers: true, .. } => "diamond_pure",
@@ -120,6 +131,7 @@ impl Family {
             Family::Wide { entries, globals, .. } => (*entries).min(*globals),
             Family::KernelLib { n } => *n,
             Family::Magnitude { bindings, .. } => 8 + *bindings,
+            Family::Shapes { n, .. } => *n,
         }
     }
 
@@ -132,7 +144,7 @@ impl Family {
             | Family::Decls { depth, .. }
             | Family::GlobalsGraph { depth, .. }
             | Family::Types { depth, .. } => *depth = d,
-            Family::KernelLib { n } => *n = d,
+            Family::KernelLib { n } | Family::Shapes { n, .. } => *n = d,
             _ => {}
         }
         f
@@ -469,6 +481,76 @@ pub fn source(family: &Family) -> String {
                 out,
                 "@fragment\nfn fs_main() -> @location(0) vec4<f32> {{\n    return vec4<f32>(dm{depth}(2.0));\n}}"
             );
+        }
+        Family::Shapes { shape, n } => {
+            let n = (*n).max(1);
+            match shape % 7 {
+                0 => {
+                    let depth = n.min(24);
+                    let mut ty = "f32".to_string();
+                    for _ in 0..depth {
+                        ty = format!("array<{ty}, 2>");
+                    }
+                    let _ = writeln!(out, "struct Nest {{\n    first: vec4<f32>,\n    cube: {ty},\n}}");
+                    let _ = writeln!(out, "@group(0) @binding(0) var<storage, read> nest: Nest;");
+                    let _ = writeln!(out, "@compute @workgroup_size(1)\nfn cs_main() {{\n    let a = nest.first.x;\n}}");
+                }
+                1 => {
+                    let len = n.min(4000) as usize;
+                    let name = |prefix: &str| format!("{prefix}{}", "LongIdentifierPart_".repeat(len / 19 + 1)).chars().take(len.max(4)).collect::<String>();
+                    let (st, fi, gl, fu, en) = (name("St"), name("fi"), name("gl"), name("fu"), name("en"));
+                    let _ = writeln!(out, "struct {st} {{\n    {fi}: vec4<f32>,\n    {fi}_b: mat4x4<f32>,\n}}");
+                    let _ = writeln!(out, "@group(0) @binding(0) var<uniform> {gl}: {st};");
+                    let _ = writeln!(out, "fn {fu}(x: f32) -> f32 {{\n    return x + {gl}.{fi}.x;\n}}");
+                    let _ = writeln!(out, "struct V{st} {{\n    @location(0) {fi}: vec4<f32>,\n}}");
+                    let _ = writeln!(out, "@vertex\nfn {en}v(v: V{st}) -> @builtin(position) vec4<f32> {{\n    return vec4<f32>({fu}(v.{fi}.x));\n}}");
+                    let _ = writeln!(out, "@fragment\nfn {en}f() -> @location(0) vec4<f32> {{\n    return vec4<f32>({fu}(1.0));\n}}");
+                    let _ = writeln!(out, "@compute @workgroup_size(1)\nfn {en}c() {{\n    let a = {fu}(2.0);\n}}");
+                }
+                2 => {
+                    let _ = writeln!(out, "struct ManyAttrs {{");
+                    for i in 0..n.min(400) {
+                        let _ = writeln!(out, "    @location({i}) at{i}: vec4<f32>,");
+                    }
+                    let _ = writeln!(out, "}}\n@vertex\nfn vs_main(v: ManyAttrs) -> @builtin(position) vec4<f32> {{\n    return v.at0;\n}}");
+                }
+                3 => {
+                    for i in 0..n.min(600) {
+                        let _ = writeln!(out, "const MC{i}: f32 = {i}.5;\noverride mo{i}: f32 = {i}.0;");
+                    }
+                    let _ = writeln!(out, "@compute @workgroup_size(1)\nfn cs_main() {{\n    let a = MC0 + mo0;\n}}");
+                }
+                4 => {
+                    for i in 0..n.min(3000) {
+                        let _ = writeln!(out, "// {i} {}", "lorem ipsum dolor sit amet, consectetur adipiscing elit \"quoted\" \\ ".repeat(14));
+                    }
+                    let _ = writeln!(out, "@group(0) @binding(0) var<uniform> cu: vec4<f32>;\n@fragment\nfn fs_main() -> @location(0) vec4<f32> {{\n    return cu;\n}}");
+                }
+                5 => {
+                    let depth = n.min(60);
+                    out.push_str(GLOBALS);
+                    let _ = writeln!(out, "fn nest_helper(x: f32) -> f32 {{\n    return x + acc_buf[1];\n}}");
+                    let _ = writeln!(out, "fn nested(x: f32) -> f32 {{\n    var r = x;");
+                    for level in 0..depth {
+                        let _ = writeln!(out, "{}if (r > {level}.0) {{ r = r + nest_helper(r);", "  ".repeat(level as usize + 2));
+                    }
+                    for level in (0..depth).rev() {
+                        let _ = writeln!(out, "{}}} else {{ r = r - nest_helper(r); }}", "  ".repeat(level as usize + 2));
+                    }
+                    let _ = writeln!(out, "    return r;\n}}");
+                    let _ = writeln!(out, "@compute @workgroup_size(1)\nfn cs_main() {{\n    acc_buf[0] = nested(params.x);\n}}");
+                }
+                _ => {
+                    out.push_str(GLOBALS);
+                    let _ = writeln!(out, "fn case_helper(x: f32) -> f32 {{\n    return x * acc_buf[2];\n}}");
+                    let _ = writeln!(out, "fn dispatch(k: i32, x: f32) -> f32 {{\n    var r = x;\n    switch (k) {{");
+                    for case in 0..n.min(500) {
+                        let _ = writeln!(out, "        case {case}: {{ var j = 0; loop {{ if (j >= 2) {{ break; }} r = r + case_helper(r); continuing {{ j = j + 1; }} }} }}");
+                    }
+                    let _ = writeln!(out, "        default: {{ r = case_helper(r); }}\n    }}\n    return r;\n}}");
+                    let _ = writeln!(out, "@compute @workgroup_size(1)\nfn cs_main() {{\n    acc_buf[0] = dispatch(3, params.x);\n}}");
+                }
+            }
         }
         Family::Magnitude { bindings, seed } => {
             let mut rng = Rng::new(*seed);
@@ -820,6 +902,19 @@ pub fn systematic_families() -> Vec<Family> {
     for (bindings, seed) in [(1, 1), (4, 2), (16, 3), (64, 4)] {
         v.push(Family::Magnitude { bindings, seed });
     }
+    for (shape, sizes) in [
+        (0u8, &[4u32, 12, 24][..]),
+        (1, &[64, 1000, 4000]),
+        (2, &[16, 100, 400]),
+        (3, &[10, 150, 600]),
+        (4, &[10, 500, 3000]),
+        (5, &[4, 30, 60]),
+        (6, &[8, 100, 500]),
+    ] {
+        for n in sizes {
+            v.push(Family::Shapes { shape, n: *n });
+        }
+    }
     for (depth, fan, globals, helpers) in [(4, 2, 16, 4), (16, 3, 64, 24), (48, 4, 256, 96), (64, 2, 400, 150)] {
         v.push(Family::GlobalsGraph { depth, fan, globals, helpers });
     }
@@ -855,6 +950,14 @@ pub fn random_family(rng: &mut Rng) -> Family {
             globals: rng.range(8, 400) as u32,
             helpers: rng.range(0, 150) as u32,
         },
+        4 if rng.chance(300) => {
+            let shape = rng.below(7) as u8;
+            let max = [24, 4000, 400, 600, 3000, 60, 500][shape as usize];
+            Family::Shapes {
+                shape,
+                n: rng.range(1, max) as u32,
+            }
+        }
         4 if rng.chance(300) => Family::Magnitude {
             bindings: rng.range(1, 64) as u32,
             seed: rng.below(1 << 30),
